@@ -350,6 +350,10 @@ class ProcessRunner(Runner, ABC):
                 storage=storage
             )
         finally:
+            # Ensure captured output is on the log queue before the
+            # task's result is returned to the main process.
+            sys.stdout.flush()
+            sys.stderr.flush()
             process_event_queue.put(ProcessEndEvent(
                 task_name=task_name,
             ))
@@ -368,6 +372,9 @@ class ProcessRunner(Runner, ABC):
     def wait(self, *, timeout_seconds: Optional[float]) -> Iterator[tuple[Task, ResultMeta | BaseException]]:
         self._consume_log_queue()
         done, _ = self.executor.wait(list(self.future_to_task.keys()), timeout_seconds=timeout_seconds)
+        # Tasks log before they return their result, so logs of the
+        # tasks that are now done (possibly the last ones) are waiting.
+        self._consume_log_queue()
         for future in done:
             task = self.future_to_task[future]
             if future.cancelled:
